@@ -2,7 +2,8 @@
 from vlib.tok import s as S
 from checks.storegen import World, NAMES, PLAIN, BLOCK_KINDS
 ID = 'C03'
-THEOREMS = ['Nix.St.find_by_name', 'Nix.St.find_by_id', 'Nix.St.find_by_id_shadowed', 'Nix.St.count_eq_enumeration_length', 'Nix.St.enumeration_eq_by_index', 'Nix.St.nthChild_isSome_iff', 'Nix.St.blkFind_by_name', 'Nix.St.blkFind_by_name_and_id', 'Nix.St.blkFind_by_id', 'Nix.St.createBlock_appends', 'Nix.St.delete_keeps_order']
+THEOREMS = ['Nix.St.find_by_name', 'Nix.St.find_by_id', 'Nix.St.find_by_id_shadowed', 'Nix.St.count_eq_enumeration_length', 'Nix.St.enumeration_eq_by_index', 'Nix.St.nthChild_isSome_iff', 'Nix.St.blkFind_by_name', 'Nix.St.blkFind_by_name_and_id', 'Nix.St.blkFind_by_id', 'Nix.St.createBlock_appends', 'Nix.St.delete_keeps_order', 'Nix.St.unlinkAll_preserves_container', 'Nix.St.createBlock_preserves_container', 'Nix.St.blocks_container_invariant', 'Nix.St.newFile_blocks_container']
+LEAN_MODULES = ['NixModel.Props.C03', 'NixModel.Props.C03Inv']
 RULE = ('random create / delete / re-create histories over every container kind (blocks, nested sections, nested sources, data arrays, data frames, '
         'tags, multi-tags, groups, properties, features, tag references, group members, entity sources) with an adversarial name pool (UUID-shaped, '
         '"..", case / whitespace twins, UTF-8, names of internal containers); after every few mutations every container of every parent is '
